@@ -50,6 +50,11 @@ fn gen_case(rng: &mut Rng) -> Case {
         }
     }
     sc.strict = rng.chance(1, 3);
+    if rng.chance(1, 4) {
+        // tuning knobs (hook): tiny text decoder buffer / no fast path => more, smaller text chunks
+        sc.text_buf = rng.pick(&[8usize, 13, 16, 31, 64]);
+        sc.no_fast_text = rng.chance(1, 3);
+    }
     sc.esi = rng.chance(1, 6);
     sc.handlers = match rng.below(4) {
         0 => wl::mutators(rng, true),
